@@ -12,6 +12,7 @@ import LlgVerif.Model.TokRanges
 import Driver.Util
 import LlgVerif.Model.IntRange
 import LlgVerif.Spec.Cfg
+import LlgVerif.Model.Numeric
 open LlgVerif Drv
 
 def wordsOf (l : List Nat) : List Word := l.map (fun n => BitVec.ofNat 32 n)
@@ -456,6 +457,13 @@ def handleNum (args : List String) : String :=
       | .ok p => "ok " ++ p.s
       | .error _ => "err"
     | _, _ => "bad-op"
+  | ["lcm", c1, e1, c2, e2] =>
+    match parseNat? c1, parseNat? e1, parseNat? c2, parseNat? e2 with
+    | some c1, some e1, some c2, some e2 =>
+      match Dec.checkedLcm { coef := c1, exp := e1 } { coef := c2, exp := e2 } with
+      | some d => s!"some {d.coef} {d.exp}"
+      | none => "none"
+    | _, _, _, _ => "bad-op"
   | ["m", l, r, ws] =>
     match parseOptInt? l, parseOptInt? r, parseHexList? ws with
     | some l, some r, some ws =>
